@@ -405,10 +405,20 @@ fn finish_install(line: &mut String, ctx: &Ctx, inj: &InjectorPP, before: usize,
     }
 }
 
-/// fork; the child runs `f` writing to a pipe; the parent returns (output, exit status / signal)
-pub fn in_child(f: impl FnOnce(&mut std::fs::File)) -> (String, i32, i32) {
+/// fork; the child runs `f` writing to a pipe; the parent returns (output, exit status / signal).
+/// A child still alive after `secs` seconds is killed (signal 9 is then the observation).
+pub static TIMEOUTS: std::sync::atomic::AtomicUsize = std::sync::atomic::AtomicUsize::new(0);
+
+/// several children already had to be killed: stop generating further cases of this kind
+pub fn too_many_timeouts() -> bool {
+    TIMEOUTS.load(std::sync::atomic::Ordering::SeqCst) >= 3
+}
+
+pub fn in_child_deadline(secs: u64, f: impl FnOnce(&mut std::fs::File)) -> (String, i32, i32) {
     use std::io::Read;
     use std::os::unix::io::FromRawFd;
+    use std::sync::atomic::{AtomicBool, Ordering};
+    use std::sync::Arc;
     unsafe {
         let mut fds = [0i32; 2];
         assert_eq!(shim::pipe(fds.as_mut_ptr()), 0);
@@ -423,15 +433,36 @@ pub fn in_child(f: impl FnOnce(&mut std::fs::File)) -> (String, i32, i32) {
             shim::_exit(0);
         }
         shim::close(fds[1]);
+        let done = Arc::new(AtomicBool::new(false));
+        let d2 = done.clone();
+        let watchdog = std::thread::spawn(move || {
+            let start = std::time::Instant::now();
+            while start.elapsed().as_secs() < secs {
+                if d2.load(Ordering::SeqCst) {
+                    return;
+                }
+                std::thread::sleep(std::time::Duration::from_millis(20));
+            }
+            if !d2.load(Ordering::SeqCst) {
+                TIMEOUTS.fetch_add(1, Ordering::SeqCst);
+                shim::kill(pid, shim::SIGKILL);
+            }
+        });
         let mut rd = std::fs::File::from_raw_fd(fds[0]);
         let mut s = String::new();
         let _ = rd.read_to_string(&mut s);
         let mut status = 0i32;
         shim::waitpid(pid, &mut status, 0);
+        done.store(true, Ordering::SeqCst);
+        let _ = watchdog.join();
         let sig = if shim::WIFSIGNALED(status) { shim::WTERMSIG(status) } else { 0 };
         let code = if shim::WIFEXITED(status) { shim::WEXITSTATUS(status) } else { -1 };
         (s, code, sig)
     }
+}
+
+pub fn in_child(f: impl FnOnce(&mut std::fs::File)) -> (String, i32, i32) {
+    in_child_deadline(30, f)
 }
 
 pub fn run(a: &Args, out: &mut impl Write) {
@@ -439,6 +470,9 @@ pub fn run(a: &Args, out: &mut impl Write) {
     let mut r = Rng::new(a.seed);
     let bases: [usize; 5] = [0x10000, 0x4000_0000, 0x10_0000_0000, 0x5555_0000_0000, 0x7ffd_0000_0000];
     for h in 0..a.n {
+        if too_many_timeouts() {
+            break;
+        }
         let seed_h = r.next();
         let base = bases[(h % bases.len() as u64) as usize];
         let thorough = a.tier_thorough;
